@@ -344,6 +344,48 @@ def wire_rule(ctx, r):
             r.bad("searcher|context-order", "before/after context counts are swapped or not taken from limited.get()", fn=g)
 
 
+def wire_pcre2_rule(ctx, r):
+    """Only under the pcre2 feature configuration (thorough tier): the PCRE2 matcher wiring."""
+    facts = ctx.facts
+    f = facts.fn(HI + "::matcher_pcre2")
+    eb = ExprBuilder(f)
+    PB = "grep_pcre2::matcher::RegexMatcherBuilder"
+    bc = builder_calls(f, PB)
+    cv = W.const_val
+
+    def one(name, pred_arg, desc, guards=()):
+        cs = [c for c in bc.get(name, []) if pred_arg(eb.operand(c.args[1]))]
+        key = "pcre2|%s|%s" % (name, desc)
+        if not cs:
+            r.bad(key, "matcher_pcre2 never calls RegexMatcherBuilder::%s(%s)" % (name, desc), fn=f, construct=name)
+            return
+        for c in cs:
+            for kind, fld, pol in guards:
+                ok = W.guard_bool_field(f, eb, [c.bb], HI, fld, pol) if kind == "bool" else \
+                    W.guard_variant(f, eb, [c.bb], lambda e: mentions_field(e, HI, fld), pol)
+                if not ok:
+                    r.bad(key, "pcre2 %s(%s) at %s is not restricted to %s=%s" % (name, desc, c.loc, fld, pol), fn=f, loc=c.loc,
+                          construct=name)
+                    return
+        r.ok(key, "%d site(s), guards %s" % (len(cs), list(guards)), fn=f)
+    one("multi_line", lambda e: cv(e) == 1, "true")
+    one("fixed_strings", lambda e: W.field_of(e, HI, "fixed_strings"), "fixed_strings")
+    one("caseless", lambda e: cv(e) == 0, "false", [("variant", "case", "Sensitive")])
+    one("caseless", lambda e: cv(e) == 1, "true", [("variant", "case", "Insensitive")])
+    one("case_smart", lambda e: cv(e) == 1, "true", [("variant", "case", "Smart")])
+    one("whole_line", lambda e: cv(e) == 1, "true", [("variant", "boundary", "Line")])
+    one("word", lambda e: cv(e) == 1, "true", [("variant", "boundary", "Word")])
+    one("crlf", lambda e: cv(e) == 1, "true", [("bool", "crlf", True)])
+    one("utf", lambda e: cv(e) == 1, "true", [("bool", "no_unicode", False)])
+    one("ucp", lambda e: cv(e) == 1, "true", [("bool", "no_unicode", False)])
+    one("dotall", lambda e: W.field_of(e, HI, "multiline_dotall"), "multiline_dotall", [("bool", "multiline", True)])
+    bm = bc.get("build_many", [])
+    if len(bm) == 1 and mentions_field(eb.operand(bm[0].args[1]), "rg::flags::hiargs::Patterns", "patterns"):
+        r.ok("pcre2|build_many", "build_many(&self.patterns.patterns)", fn=f)
+    else:
+        r.bad("pcre2|build_many", "the PCRE2 matcher is not built from self.patterns.patterns", fn=f)
+
+
 def wrap_rule(ctx, r):
     facts = ctx.facts
     f = facts.fn(RB + "::build_many")
@@ -517,6 +559,10 @@ def run(ctx):
         invert_rule(ctx, r)
     with ctx.rule("C01.WIRE", "CLI → matcher builder / searcher builder wiring tables", floor=24, kind="WIRE") as r:
         wire_rule(ctx, r)
+    mp = ctx.facts.fns.get(HI + "::matcher_pcre2")
+    if mp is not None and any(c.path.startswith("grep_pcre2::") for c in mp.calls()):
+        with ctx.rule("C01.WIRE-PCRE2", "CLI → PCRE2 matcher builder wiring (pcre2 feature configuration only)", floor=12, kind="WIRE") as r:
+            wire_pcre2_rule(ctx, r)
     with ctx.rule("C01.WRAP", "word / whole-line wrapping tables; smart-case truth table (16 rows)", floor=7, exhaustive=True,
                   kind="TABLE/TRUTH") as r:
         wrap_rule(ctx, r)
